@@ -571,50 +571,54 @@ class RenameSite(object):
   One function that hands RenameColumn / RenameTable actions to the gateway, analysed by role:
 
     emits      [(cfg node id, gateway call, ctor call, action name)]
-    loop       the `for <targets> in <pairs>` statement that drives the emissions
-    field      the metadata field whose change means "renamed" ('colId' / 'tableId'), read from
-               the emission guard has_diff_value(values, <field>, ...)
     preps      [(cfg node id, call)] calls of self._prepare_formula_renames(<map>)
-    map_name   the local name of the rename map (before any re-keying)
+    emission_shape(emit)   the loop driving an emission, its iterable, placeholders, guard facts
+    resolve_map(arg)       the rename map handed to the formula renamer, as a collection view
+  Locals are seen through (View): an action built into a local first, an aliased iterable, a map
+  built by a comprehension or by an accumulating loop all look the same.
   """
   def __init__(self, fn, action_names):
     self.fn = fn
     self.cfg = fn.cfg
-    self.du = DefUse(fn)
+    self.view = View(fn)
+    self.du = self.view.du
     self.emits = []
     for (n, c, nm) in fn.calls():
       if E.is_gateway_call(c, nm, fn) and c.args:
-        ctor = E.action_ctor(c.args[0], action_names)
+        ctor = E.action_ctor(self.view.res(c.args[0]), action_names)
         if ctor is not None:
           self.emits.append((n.id, c, ctor[1], ctor[0]))
     self.preps = [(n.id, c) for (n, c, nm) in fn.calls()
-                  if endswith(nm, "self._prepare_formula_renames") and len(c.args) == 1]
+                  if endswith(nm, "self._prepare_formula_renames") and
+                  len(c.args) + len(c.keywords) == 1]
+
+  @staticmethod
+  def prep_arg(call):
+    return call.args[0] if call.args else call.keywords[0].value
 
   # ---- the emission loop, by role
   def emission_shape(self, emit):
-    """(loop stmt, canonical iterable text, root container name, {target: placeholder},
-    [guard tests], ctor call)"""
+    """(loop stmt, canonical iterable text, root container name, LoopMap, guard facts,
+    ctor call)"""
     nid, gw, ctor, aname = emit
-    stmt = self.cfg.nodes[nid].stmt
-    loop = innermost_loop(self.fn.node, stmt)
-    if loop is None:
+    v = self.view
+    loops = [l for l in v.enclosing_loops(self.cfg.nodes[nid].stmt) if isinstance(l, ast.For)]
+    if not loops:
       raise AnalysisError("%s: %s emitted outside a loop over update pairs"
                           % (self.fn.qualname, aname))
-    tests = enclosing_ifs_within(self.fn.node, stmt, loop)
+    loop = loops[-1]
+    tm = v.loop_map(loop)
+    facts = v.facts_at(gw, start=tm.head, mapping=tm)
     it_text, root = self.canonical_iter(loop.iter)
-    return loop, it_text, root, target_map(loop.target), tests, ctor
+    return loop, it_text, root, tm, facts, ctor
 
-  def canonical_iter(self, it):
-    """Iterable expression with single-definition view aliases expanded:
-    `update_pairs` defined once as `col_updates.items()` -> ('col_updates.items()', 'col_updates')."""
-    e = it
-    for _ in range(3):
-      if isinstance(e, ast.Name):
-        vals = E.local_defs(self.fn.node, e.id)
-        if len(vals) == 1 and (isinstance(vals[0], ast.Name) or _is_items_view(vals[0])):
-          e = vals[0]
-          continue
-      break
+  def canonical_iter(self, it, at=None):
+    """Iterable expression with aliases followed:
+    `update_pairs` defined as `col_updates.items()` -> ('col_updates.items()', 'col_updates')."""
+    e = self.view.alias_root(it, at=at)
+    if isinstance(e, ast.Call) and dotted(e.func) in ("list", "sorted", "tuple") and \
+        len(e.args) == 1 and not e.keywords:
+      e = self.view.alias_root(e.args[0], at=at if at is not None else self.view.point_of(it))
     if isinstance(e, ast.Name):
       return e.id, e.id
     if _is_items_view(e):
@@ -625,45 +629,47 @@ class RenameSite(object):
   # ---- the rename map, by role
   def resolve_map(self, arg):
     """Follow the argument of _prepare_formula_renames to the construction of the map.
-    Returns (kind, name, comp, rekey) with kind in 'comp' | 'incremental'."""
+    Returns (name or None, Coll, rekey) -- rekey 'table' when the argument re-keys a table map
+    {old: new} as {(old, None): new}."""
+    v = self.view
     rekey = None
     e = arg
-    if isinstance(e, ast.DictComp) and len(e.generators) == 1 and \
-        _is_items_view(e.generators[0].iter) and not e.generators[0].ifs:
-      # {(old, None): new for (old, new) in table_renames.items()}   (re-keying only)
-      g = e.generators[0]
-      tm = target_map(g.target)
-      k, v = ntext(e.key, tm), ntext(e.value, tm)
-      if (k, v) == ("(_v0_0, None)", "_v0_1"):
-        rekey = "table"
-      elif (k, v) == ("_v0_0", "_v0_1"):
-        rekey = None
-      else:
-        raise AnalysisError("%s: rename map re-keyed in an unknown way: %s"
-                            % (self.fn.qualname, short(e)))
-      e = g.iter.func.value
-    if not isinstance(e, ast.Name):
-      if isinstance(e, ast.DictComp):
-        return ("comp", None, e, rekey)
-      raise AnalysisError("%s: rename map argument outside the supported subset: %s"
-                          % (self.fn.qualname, short(arg)))
-    name = e.id
-    vals = E.local_defs(self.fn.node, name)
-    muts = self.du.muts.get(name, set())
-    if len(vals) == 1 and isinstance(vals[0], ast.DictComp) and not muts:
-      return ("comp", name, vals[0], rekey)
-    if vals and all(isinstance(v, ast.Dict) and not v.keys or
-                    (isinstance(v, ast.Call) and dotted(v.func) in ("dict", "OrderedDict")
-                     and not v.args and not v.keywords) for v in vals) and muts:
-      return ("incremental", name, None, rekey)
+    c = v.collection(e)
+    if c is not None and c.kind == "dict" and not c.conds and c.loop is None:
+      ie = v.alias_root(c.iter, at=v.point_of(arg))
+      if _is_items_view(ie) and (c.key, c.value) in (("(_v0_0, None)", "_v0_1"),
+                                                     ("_v0_0", "_v0_1")):
+        # {(old, None): new for (old, new) in table_renames.items()}   (re-keying only)
+        rekey = "table" if c.key == "(_v0_0, None)" else None
+        name = ie.func.value.id
+        return name, self._coll_of_name(name, arg), rekey
+    if c is not None and isinstance(v.res(e), ast.DictComp) and not isinstance(e, ast.Name):
+      return None, c, rekey
+    if isinstance(e, ast.Name):
+      if c is None:
+        c = self._coll_of_name(e.id, arg)
+      return e.id, c, rekey
+    raise AnalysisError("%s: rename map argument outside the supported subset: %s"
+                        % (self.fn.qualname, short(arg)))
+
+  def _coll_of_name(self, name, where):
+    v = self.view
+    nid = v.point_of(where)
+    defs = v.reaching(name, nid) if nid is not None else ()
+    vals = [v._plain_value(name, d) for d in defs]
+    if len(vals) == 1 and vals[0] is not None:
+      c = v.collection(vals[0]) if not _empty_container(vals[0]) else \
+          v._loop_coll(name, _empty_container(vals[0]), vals[0])
+      if c is not None:
+        return c
     raise AnalysisError("%s: construction of the rename map %s is outside the supported idioms"
                         % (self.fn.qualname, name))
 
-  def map_writer_nodes(self, name, comp):
+  def map_writer_nodes(self, name, coll):
     if name is None:
-      return {n.id for n in self.cfg.nodes if n.stmt is not None and
-              any(x is comp for e in n.exprs for x in ast.walk(e))}
-    return self.du.defs.get(name, set()) | self.du.muts.get(name, set())
+      return {self.view.node_of(coll.node).id}
+    return {n for n, names in self.view._gens().items() if name in names} | \
+        self.du.muts.get(name, set())
 
   # ---- writes to the pairs container, classified
   def classify_pairs_write(self, nid, root, field):
@@ -720,6 +726,11 @@ class RenameSite(object):
     return HARMLESS if isinstance(stmt, ast.Expr) and stmt.value is inner else UNKNOWN
 
 
+def _is_view_call(e):
+  return isinstance(e, ast.Call) and isinstance(e.func, ast.Attribute) and \
+      e.func.attr in ("items", "values", "keys") and not e.args and not e.keywords
+
+
 def _is_items_view(e):
   return isinstance(e, ast.Call) and isinstance(e.func, ast.Attribute) and \
       e.func.attr == "items" and isinstance(e.func.value, ast.Name) and not e.args
@@ -751,10 +762,11 @@ def python_schema(world):
   mk = repo.func("schema.make_column")
   # make_column: which parameter is the id, which the type
   rets = [s for s in ast.walk(mk.node) if isinstance(s, ast.Return)]
-  if len(rets) != 1 or not isinstance(rets[0].value, ast.Dict):
+  mkret = View(world.fn_of(mk)).res(rets[0].value) if len(rets) == 1 else None
+  if not isinstance(mkret, ast.Dict):
     raise AnalysisError("schema.make_column no longer returns one dict literal")
   role = {}
-  for k, v in zip(rets[0].value.keys, rets[0].value.values):
+  for k, v in zip(mkret.keys, mkret.values):
     if isinstance(k, ast.Constant) and isinstance(v, ast.Name):
       role[k.value] = v.id
   if "id" not in role or "type" not in role:
@@ -765,7 +777,8 @@ def python_schema(world):
     raise AnalysisError("actions.AddTable fields changed")
   i_tid, i_cols = fields.index("table_id"), fields.index("columns")
   rets = [s for s in ast.walk(fi.node) if isinstance(s, ast.Return)]
-  if len(rets) != 1 or not isinstance(rets[0].value, ast.List):
+  sret = View(world.fn_of(fi)).res(rets[0].value) if len(rets) == 1 else None
+  if not isinstance(sret, ast.List):
     raise AnalysisError("schema.schema_create_actions no longer returns one list literal")
 
   def arg(call, params_, name):
@@ -778,12 +791,13 @@ def python_schema(world):
     return None
 
   out = OrderedPairs()
-  for el in rets[0].value.elts:
-    if not (isinstance(el, ast.Call) and dotted(el.func) in ("actions.AddTable", "AddTable") and
-            not el.keywords and len(el.args) == len(fields)):
+  for el in sret.elts:
+    ba = bind_args(el, fields) if isinstance(el, ast.Call) and \
+        dotted(el.func) in ("actions.AddTable", "AddTable") else None
+    if ba is None or set(ba) != set(fields):
       raise AnalysisError("schema_create_actions: element is not actions.AddTable(...): %s"
                           % short(el))
-    tid, cols = el.args[i_tid], el.args[i_cols]
+    tid, cols = ba["table_id"], ba["columns"]
     if not (isinstance(tid, ast.Constant) and isinstance(tid.value, str) and
             isinstance(cols, ast.List)):
       raise AnalysisError("schema_create_actions: table not written as literals: %s" % short(el))
@@ -802,3 +816,1227 @@ def python_schema(world):
   if len(set(ids)) != len(ids):
     raise AnalysisError("schema_create_actions: duplicate table ids")
   return out
+
+
+# ======================================================================== spelling-independent views
+#
+# The helpers below let a rule ask *what* a function does without depending on how it is spelt:
+#   View.x / View.t          an expression with single-assignment locals expanded (aliases, named
+#                            sub-expressions), as AST / as normalised text (optionally with loop
+#                            variables replaced by positional placeholders)
+#   View.facts_at / holds    what is known to be true/false at a program point, from the CFG:
+#                            `if c: X`, `if not c: continue` + X, swapped else branches, `c and d`
+#                            all guard X by c; inside an expression `a and b`, `x if t else y` and
+#                            comprehension filters add to it
+#   decision_arms            (conditions, result) per path of a loop-free function, whether it is
+#                            written as one conditional expression or as if/return statements
+#   View.collection          a dict/list/set built by a comprehension *or* by an accumulating loop,
+#                            in one normal form
+#   bind_args                call arguments by parameter name (positional or keyword)
+#   expand_helpers / xfn     a function with its private same-class / same-module helpers
+#                            inlined at the call (extract-method refactors)
+
+from .. import guards as _G
+
+
+def bind_args(call, params, skip_self=False):
+  """{param: argument expr} of a call against the parameter names of the callee; None when the
+  call uses * / ** or does not fit."""
+  ps = list(params)
+  if skip_self and ps and ps[0] in ("self", "cls"):
+    ps = ps[1:]
+  out = {}
+  if any(isinstance(a, ast.Starred) for a in call.args) or any(k.arg is None for k in call.keywords):
+    return None
+  if len(call.args) > len(ps):
+    return None
+  for p, a in zip(ps, call.args):
+    out[p] = a
+  for k in call.keywords:
+    if k.arg in out or k.arg not in ps:
+      return None
+    out[k.arg] = k.value
+  return out
+
+
+_FLIP = {ast.NotEq: ast.Eq, ast.IsNot: ast.Is, ast.NotIn: ast.In}
+_OPNAME = {ast.Eq: "==", ast.Is: "is", ast.In: "in", ast.Lt: "<", ast.LtE: "<=", ast.Gt: ">",
+           ast.GtE: ">="}
+
+
+class View(object):
+  """Spelling-independent questions about one function (an `Fn`).
+
+  Expressions are compared as normalised text in which a local stands for the value it has *at
+  the point where the expression is evaluated*: a name whose only reaching binding is a plain
+  assignment is replaced by the assigned expression (recursively); a name bound otherwise (loop
+  variable, parameter, unpacking, augmented assignment) stays, and if the function binds it in
+  several such ways it is written `name@<node>` so that two different values never share a text.
+  Facts about such texts are facts about values: rebinding a name does not invalidate what is
+  known about the value it used to denote; executing the binding again (next loop iteration)
+  does."""
+
+  ENTRY = -1
+
+  def __init__(self, fn):
+    self.fn = fn
+    self.node = fn.node
+    self.cfg = fn.cfg
+    self.du = DefUse(fn)
+    a = fn.node.args
+    self.params = {x.arg for x in a.posonlyargs + a.args + a.kwonlyargs}
+    if a.vararg:
+      self.params.add(a.vararg.arg)
+    if a.kwarg:
+      self.params.add(a.kwarg.arg)
+    self._single = {}
+    self._bind_counts = None
+    self._edge_cache = {}
+    self._node_of = None
+    self._rd = None
+    self._gen = None
+    self._kills = {}        # atom key -> set of def node ids whose re-execution renews a value
+    self._nonplain = None
+
+  # ------------------------------------------------------------------ bindings
+  def _gens(self):
+    """{node id: names bound at that node}"""
+    if self._gen is None:
+      gen = {}
+      for name, nodes in self.du.defs.items():
+        for nid in nodes:
+          gen.setdefault(nid, set()).add(name)
+      for n in self.cfg.nodes:
+        if n.kind == "def" and n.stmt is not None:
+          gen.setdefault(n.id, set()).add(n.stmt.name)
+        elif n.kind == "handler" and getattr(n.stmt, "name", None):
+          gen.setdefault(n.id, set()).add(n.stmt.name)
+        elif n.kind == "stmt" and isinstance(n.stmt, ast.Delete):
+          for t in n.stmt.targets:
+            if isinstance(t, ast.Name):
+              gen.setdefault(n.id, set()).add(t.id)
+      # comprehension variables are not bindings of the function's locals (their own scope)
+      for nid in list(gen):
+        n = self.cfg.nodes[nid]
+        real = set()
+        s = n.stmt
+        if n.kind in ("for", "with", "def", "handler"):
+          real = set(gen[nid])
+          if n.kind == "for":
+            real = {y.id for y in ast.walk(s.target) if isinstance(y, ast.Name)}
+          elif n.kind == "with":
+            real = {y.id for it in s.items if it.optional_vars is not None
+                    for y in ast.walk(it.optional_vars) if isinstance(y, ast.Name)}
+        elif n.kind == "stmt":
+          real = set(stmt_defs_plain(s))
+        for e in n.exprs:
+          for y in walk_no_nested(e):
+            if isinstance(y, ast.NamedExpr) and isinstance(y.target, ast.Name):
+              real.add(y.target.id)
+        gen[nid] = real
+        if not real:
+          del gen[nid]
+      self._gen = gen
+    return self._gen
+
+  def _reaching(self):
+    """IN sets of a reaching-definitions analysis: {node id: {name: frozenset(def node ids)}}.
+    Parameters are defined at ENTRY. Names never bound in the function do not appear."""
+    if self._rd is not None:
+      return self._rd
+    cfg = self.cfg
+    gen = self._gens()
+    IN = {n.id: {} for n in cfg.nodes}
+    OUT = {n.id: {} for n in cfg.nodes}
+    OUT[cfg.entry.id] = {p: frozenset([self.ENTRY]) for p in self.params}
+    work = [n.id for n in cfg.nodes]
+    while work:
+      nid = work.pop()
+      if nid == cfg.entry.id:
+        continue
+      new_in = {}
+      for p in cfg.pred[nid]:
+        for k, v in OUT[p].items():
+          new_in[k] = new_in.get(k, frozenset()) | v
+      new_out = dict(new_in)
+      for nm in gen.get(nid, ()):
+        new_out[nm] = frozenset([nid])
+      IN[nid] = new_in
+      if new_out != OUT[nid]:
+        OUT[nid] = new_out
+        work.extend(cfg.succ[nid])
+    self._rd = IN
+    return IN
+
+  def reaching(self, name, nid):
+    """frozenset of node ids whose binding of `name` may be the one seen at node nid; an empty
+    set for names that are not locals (globals, builtins)."""
+    return self._reaching().get(nid, {}).get(name, frozenset())
+
+  def _plain_value(self, name, nid):
+    """value expr if CFG node nid is a plain `name = value` statement, else None"""
+    if nid == self.ENTRY:
+      return None
+    n = self.cfg.nodes[nid]
+    s = n.stmt
+    if n.kind != "stmt":
+      return None
+    if isinstance(s, ast.Assign) and len(s.targets) == 1 and isinstance(s.targets[0], ast.Name) \
+        and s.targets[0].id == name:
+      return s.value
+    if isinstance(s, ast.AnnAssign) and isinstance(s.target, ast.Name) and s.target.id == name:
+      return s.value
+    return None
+
+  def _nonplain_defs(self, name):
+    """def node ids of `name` that are not plain assignments (ENTRY for a parameter)."""
+    if self._nonplain is None:
+      self._nonplain = {}
+    if name not in self._nonplain:
+      out = set()
+      if name in self.params:
+        out.add(self.ENTRY)
+      for nid, names in self._gens().items():
+        if name in names and self._plain_value(name, nid) is None:
+          out.add(nid)
+      self._nonplain[name] = out
+    return self._nonplain[name]
+
+  def value_at(self, name, nid):
+    """(value expr, def node id) when exactly one binding of `name` reaches node nid, that
+    binding is a plain assignment, and everything the value mentions still means at nid what it
+    meant at the assignment. Else None."""
+    defs = self.reaching(name, nid)
+    if len(defs) != 1:
+      return None
+    d = next(iter(defs))
+    v = self._plain_value(name, d)
+    if v is None:
+      return None
+    if name in self.du.muts and _allocates(v):
+      # a fresh object that is then filled in place: the name is its identity
+      return None
+    own = set()
+    for y in ast.walk(v):
+      if isinstance(y, ast.comprehension):
+        own |= {z.id for z in ast.walk(y.target) if isinstance(z, ast.Name)}
+      elif isinstance(y, ast.Lambda):
+        own |= {a.arg for a in y.args.args}
+    for y in ast.walk(v):
+      if isinstance(y, ast.Name) and isinstance(y.ctx, ast.Load) and y.id not in own:
+        if y.id == name:
+          # x = f(x): the x on the right is the previous binding; fine when that is unambiguous
+          if len(self.reaching(name, d)) != 1:
+            return None
+          continue
+        if d != nid and self.reaching(y.id, d) != self.reaching(y.id, nid):
+          return None
+    return v, d
+
+  def single_value(self, name):
+    """For expressions that are not part of the function: the expression a local stands for when
+    it is bound exactly once in the function, by a plain assignment."""
+    if name in self._single:
+      return self._single[name]
+    out = None
+    sites = [nid for nid, names in self._gens().items() if name in names]
+    if name not in self.params and len(sites) == 1:
+      out = self._plain_value(name, sites[0])
+      if out is not None and any(isinstance(x, ast.Name) and x.id == name for x in ast.walk(out)):
+        out = None
+    self._single[name] = out
+    return out
+
+  # ------------------------------------------------------------------ program points
+  def node_of(self, astnode):
+    """CFG node at which `astnode` (a statement or an expression) is evaluated."""
+    if self._node_of is None:
+      m = {}
+      for n in self.cfg.nodes:
+        if n.stmt is None:
+          continue
+        roots = list(n.exprs)
+        if n.kind in ("stmt", "return", "raise_stmt", "assert"):
+          roots.append(n.stmt)
+        for r in roots:
+          for y in walk_no_nested(r, into_lambda=True):
+            m.setdefault(id(y), n)
+        m.setdefault(id(n.stmt), n)
+      self._node_of = m
+    n = self._node_of.get(id(astnode))
+    if n is None:
+      raise AnalysisError("%s: construct is not evaluated at a statement of this function: %s"
+                          % (self.fn.qualname, short(astnode)))
+    return n
+
+  def point_of(self, astnode):
+    """CFG node id at which astnode is evaluated, or None for detached expressions."""
+    if astnode is None:
+      return None
+    if self._node_of is None:
+      try:
+        self.node_of(astnode)
+      except AnalysisError:
+        return None
+    n = self._node_of.get(id(astnode))
+    return n.id if n is not None else None
+
+  # ------------------------------------------------------------------ expansion
+  def xd(self, expr, at=None, depth=8, bound=()):
+    """(copy of expr with locals replaced by what they stand for where expr is evaluated,
+    set of def node ids of the bindings that the remaining local names refer to)."""
+    view = self
+    if expr is None:
+      return None, set()
+    nid0 = at if at is not None else self.point_of(expr)
+    used = set()
+
+    class T(ast.NodeTransformer):
+      def __init__(self, d, bound, nid):
+        self.d = d
+        self.bound = bound
+        self.nid = nid
+
+      def visit_Name(self, n):
+        if not isinstance(n.ctx, ast.Load) or n.id in self.bound:
+          return n
+        if self.nid is None:
+          if self.d > 0:
+            v = view.single_value(n.id)
+            if v is not None:
+              return T(self.d - 1, self.bound, None).visit(copy.deepcopy(v))
+          return n
+        if self.d > 0:
+          r = view.value_at(n.id, self.nid)
+          if r is not None:
+            return T(self.d - 1, self.bound, r[1]).visit(copy.deepcopy(r[0]))
+        defs = view.reaching(n.id, self.nid)
+        if not defs:
+          return n                  # not a local
+        used.update(d for d in defs if d != view.ENTRY)
+        if len(defs) == 1:
+          d = next(iter(defs))
+          if len(view._nonplain_defs(n.id)) > 1 and d in view._nonplain_defs(n.id) and \
+              d != view.ENTRY:
+            return ast.copy_location(ast.Name(id="%s@%d" % (n.id, d), ctx=n.ctx), n)
+        return n
+
+      def _comp(self, n):
+        b = set(self.bound)
+        for g in n.generators:
+          for y in ast.walk(g.target):
+            if isinstance(y, ast.Name):
+              b.add(y.id)
+        return T(self.d, b, self.nid).generic_visit(n)
+
+      visit_ListComp = visit_SetComp = visit_DictComp = visit_GeneratorExp = _comp
+
+      def visit_Lambda(self, n):
+        b = set(self.bound) | {a.arg for a in n.args.args}
+        return T(self.d, b, self.nid).generic_visit(n)
+
+    return T(depth, set(bound), nid0).visit(copy.deepcopy(expr)), used
+
+  def x(self, expr, at=None, depth=8, bound=()):
+    return self.xd(expr, at, depth, bound)[0]
+
+  def t(self, expr, mapping=None, at=None, bound=()):
+    """Normalised text of `expr`: locals expanded, then names of `mapping` replaced. `bound`:
+    names that belong to an enclosing comprehension / lambda (not locals of the function)."""
+    if expr is None:
+      return None
+    e = self.x(expr, at=at, bound=bound)
+    if mapping:
+      e = _Renamer(_versioned(mapping)).visit(e)
+    return text(e)
+
+  def resolve(self, expr, depth=8, at=None):
+    """Follow a chain of locals to the expression it stands for (top level only; the result
+    keeps its own sub-expressions as written). Returns (expr, node id where it is evaluated)."""
+    e = expr
+    nid = at if at is not None else self.point_of(expr)
+    for _ in range(depth):
+      if not isinstance(e, ast.Name):
+        break
+      if nid is not None:
+        r = self.value_at(e.id, nid)
+        if r is None:
+          break
+        e, nid = r
+      else:
+        v = self.single_value(e.id)
+        if v is None:
+          break
+        e = v
+    return e, nid
+
+  def res(self, expr, at=None):
+    return self.resolve(expr, at=at)[0]
+
+  def alias_root(self, expr, at=None):
+    """`expr` with locals that merely rename another name or an items()/values()/keys() view
+    followed (`pairs = d.items()`, `m = table_renames`), other locals kept by name."""
+    nid = at if at is not None else self.point_of(expr)
+    e = expr
+    for _ in range(6):
+      if isinstance(e, ast.Name) and nid is not None:
+        r = self.value_at(e.id, nid)
+        if r is not None and (isinstance(r[0], ast.Name) or _is_view_call(r[0])):
+          e, nid = r
+          continue
+      break
+    if _is_view_call(e) and isinstance(e.func.value, ast.Name) and nid is not None:
+      inner = self.alias_root(e.func.value, at=nid)
+      if inner is not e.func.value and isinstance(inner, ast.Name):
+        e = ast.copy_location(ast.Call(func=ast.Attribute(value=inner, attr=e.func.attr,
+                                                          ctx=ast.Load()), args=[], keywords=[]),
+                              e)
+    return e
+
+  def denotes(self, expr, pred, at=None):
+    """expr satisfies pred, possibly through a chain of locals."""
+    e = expr
+    nid = at if at is not None else self.point_of(expr)
+    for _ in range(8):
+      if pred(e):
+        return True
+      if not isinstance(e, ast.Name):
+        return False
+      if nid is not None:
+        r = self.value_at(e.id, nid)
+        if r is None:
+          return False
+        e, nid = r
+      else:
+        v = self.single_value(e.id)
+        if v is None:
+          return False
+        e = v
+    return False
+
+  # ------------------------------------------------------------------ guards
+  def atom(self, e, pol=True, mapping=None, at=None, bound=()):
+    """Canonical (text, polarity) of one condition: `not`, !=, `is not`, `not in` folded into
+    the polarity, operands of == / is ordered, locals expanded."""
+    while isinstance(e, ast.UnaryOp) and isinstance(e.op, ast.Not):
+      e, pol = e.operand, not pol
+    if at is None:
+      at = self.point_of(e)
+    kills = set()
+
+    def tx(sub):
+      ex, used = self.xd(sub, at=at, bound=bound)
+      kills.update(used)
+      if mapping:
+        ex = _Renamer(_versioned(mapping)).visit(ex)
+      return text(ex)
+
+    if isinstance(e, ast.Compare) and len(e.ops) == 1:
+      op = type(e.ops[0])
+      if op in _FLIP:
+        op, pol = _FLIP[op], not pol
+      l, r = tx(e.left), tx(e.comparators[0])
+      if op in (ast.Eq, ast.Is) and r < l:
+        l, r = r, l
+      if op in (ast.Gt, ast.GtE):
+        op = ast.Lt if op is ast.Gt else ast.LtE
+        l, r = r, l
+      key = ("%s %s %s" % (l, _OPNAME.get(op, op.__name__), r), pol)
+    else:
+      key = (tx(e), pol)
+    self._kills.setdefault((key, _mkey(mapping)), set()).update(kills)
+    return key
+
+  def test_facts(self, test, polarity=True, mapping=None, at=None, bound=()):
+    """Canonical facts established when `test` evaluates to `polarity`."""
+    if at is None:
+      at = self.point_of(test)
+    return {self.atom(e, p, mapping, at=at, bound=bound) for (e, p) in _G.facts(test, polarity)}
+
+  def _edges(self, mapping=None):
+    mk = _mkey(mapping)
+    if mk not in self._edge_cache:
+      out = {}
+      for n in self.cfg.nodes:
+        if n.kind != "if" or n.id not in self.cfg.if_true:
+          continue
+        t_succ = set(self.cfg.if_true[n.id])
+        exc = set(self.cfg.if_exc.get(n.id, set()))
+        f_succ = set(self.cfg.succ[n.id]) - t_succ - exc
+        for pol, succ in ((True, t_succ), (False, f_succ)):
+          for (e, p) in _G.facts(n.stmt.test, pol):
+            key = self.atom(e, p, mapping, at=n.id)
+            out.setdefault(key, set()).update((n.id, s) for s in succ)
+      self._edge_cache[mk] = out
+    return self._edge_cache[mk]
+
+  def _reach_cut(self, starts, cut):
+    seen = set(starts)
+    todo = list(starts)
+    while todo:
+      a = todo.pop()
+      for b in self.cfg.succ[a]:
+        if (a, b) in cut or b in seen:
+          continue
+        seen.add(b)
+        todo.append(b)
+    return seen
+
+  def cfg_facts(self, nid, start=None, mapping=None):
+    """Facts known on every path reaching CFG node `nid` (from the function entry, or from node
+    `start`, e.g. a loop head: what each iteration establishes afresh). Facts are about values:
+    they lapse when a binding they depend on is executed again (a new iteration's loop variable),
+    not when a name is merely reused."""
+    out = set()
+    mk = _mkey(mapping)
+    for key, edges in self._edges(mapping).items():
+      starts = {self.cfg.entry.id if start is None else start}
+      for k in self._kills.get((key, mk), ()):
+        starts.add(k) if k == start else starts.update(self.cfg.succ[k])
+      if nid not in self._reach_cut(starts, edges):
+        out.add(key)
+    return out
+
+  def expr_facts(self, root, target, mapping=None):
+    """Facts the position of `target` inside expression/statement `root` adds: left operands of
+    and/or, tests of conditional expressions, comprehension filters."""
+    found = []
+    at = self.point_of(root)
+
+    def tf(test, pol, bound):
+      return self.test_facts(test, pol, mapping, at=at, bound=bound)
+
+    def go(n, acc, bound):
+      if n is target:
+        found.append(set(acc))
+        return True
+      if isinstance(n, ast.BoolOp):
+        cur = set(acc)
+        for v in n.values:
+          if go(v, cur, bound):
+            return True
+          cur = cur | tf(v, isinstance(n.op, ast.And), bound)
+        return False
+      if isinstance(n, ast.IfExp):
+        if go(n.test, acc, bound):
+          return True
+        if go(n.body, acc | tf(n.test, True, bound), bound):
+          return True
+        return go(n.orelse, acc | tf(n.test, False, bound), bound)
+      if isinstance(n, (ast.ListComp, ast.SetComp, ast.GeneratorExp, ast.DictComp)):
+        cur = set(acc)
+        b = set(bound)
+        for g in n.generators:
+          if go(g.iter, cur, b):
+            return True
+          b = b | {y.id for y in ast.walk(g.target) if isinstance(y, ast.Name)}
+          if go(g.target, cur, b):
+            return True
+          for c in g.ifs:
+            if go(c, cur, b):
+              return True
+            cur = cur | tf(c, True, b)
+        elts = [n.key, n.value] if isinstance(n, ast.DictComp) else [n.elt]
+        return any(go(e, cur, b) for e in elts)
+      if isinstance(n, ast.Lambda):
+        b = set(bound) | {a.arg for a in n.args.args}
+        return go(n.body, acc, b)
+      if isinstance(n, (ast.FunctionDef, ast.AsyncFunctionDef, ast.ClassDef)) and n is not root:
+        return False
+      for ch in ast.iter_child_nodes(n):
+        if go(ch, acc, bound):
+          return True
+      return False
+
+    go(root, set(), set())
+    return found[0] if found else set()
+
+  def facts_at(self, astnode, start=None, mapping=None):
+    """Everything known when `astnode` is evaluated: CFG guards plus its position inside its
+    own statement."""
+    n = self.node_of(astnode)
+    out = self.cfg_facts(n.id, start, mapping)
+    roots = list(n.exprs) if n.kind != "stmt" else [n.stmt]
+    for r in roots:
+      if any(y is astnode for y in ast.walk(r)):
+        out |= self.expr_facts(r, astnode, mapping)
+    return out
+
+  def holds(self, astnode, cond, pol=True, start=None, mapping=None):
+    """`cond` (an ast test, or an already canonical atom text) has truth value `pol` whenever
+    astnode is evaluated."""
+    key = (cond, pol) if isinstance(cond, str) else self.atom(cond, pol, mapping)
+    return key in self.facts_at(astnode, start, mapping)
+
+  # ------------------------------------------------------------------ loops
+  def loop_head(self, loop):
+    for n in self.cfg.nodes:
+      if n.stmt is loop and n.kind in ("for", "while"):
+        return n.id
+    raise AnalysisError("%s: loop has no CFG node" % self.fn.qualname)
+
+  def loop_map(self, loop, prefix="_v"):
+    """Placeholder mapping for the variables of a for loop (by position in the target)."""
+    return LoopMap(target_map(loop.target, prefix), self.loop_head(loop))
+
+  def enclosing_loops(self, astnode):
+    st = astnode if isinstance(astnode, ast.stmt) else self.node_of(astnode).stmt
+    return [s for (s, fld) in enclosing_chain(self.node, st)
+            if isinstance(s, (ast.For, ast.While)) and fld == "body"]
+
+  def runs_for_all(self, loop, astnode):
+    """The statement/expression `astnode` inside `loop` is evaluated in every iteration and the
+    loop cannot stop early: no guard between the loop head and it, no break/return in the body."""
+    n = self.node_of(astnode)
+    head = self.loop_head(loop)
+    if any(isinstance(z, (ast.Break, ast.Return)) for b in loop.body for z in walk_no_nested(b)):
+      return False
+    # every path from the head back to the head (or out through the body) passes the node
+    body_first = {s for s in self.cfg.succ[head]
+                  if self.cfg.nodes[s].stmt is not None and
+                  any(self.cfg.nodes[s].stmt is y or any(z is self.cfg.nodes[s].stmt
+                                                         for z in ast.walk(y))
+                      for y in loop.body)}
+    if not body_first:
+      return False
+    r = self.cfg.reach(body_first, removed={n.id})
+    return head not in r and self.cfg.exit.id not in r
+
+  # ------------------------------------------------------------------ collections
+  def collection(self, expr):
+    """Normal form of a container built from one iteration, whether it is written as a
+    comprehension or as `c = {}` / `[]` / `set()` followed by one loop that fills it:
+      Coll(kind, key, value, iter, conds, mapping)   texts use positional loop placeholders.
+    None when `expr` is not such a container; AnalysisError when it is filled in a way that
+    cannot be related to a single iteration."""
+    e = expr
+    name = None
+    at = self.point_of(expr)
+    if isinstance(e, ast.Name):
+      name = e.id
+      e2, at2 = self.resolve(e, at=at)
+      if e2 is e:
+        # filled in place after an empty initialisation: the name has one plain binding
+        sites = [nid for nid, names in self._gens().items() if name in names]
+        v = self._plain_value(name, sites[0]) if len(sites) == 1 and name not in self.params \
+            else None
+        if v is None or _empty_container(v) is None:
+          return None
+        return self._loop_coll(name, _empty_container(v), v)
+      e, at = e2, at2
+      if _empty_container(e) is not None and isinstance(expr, ast.Name):
+        return self._loop_coll(expr.id, _empty_container(e), e)
+    if isinstance(e, ast.Call) and dotted(e.func) in ("set", "list", "dict", "OrderedDict",
+                                                      "tuple", "frozenset") and \
+        len(e.args) == 1 and not e.keywords and \
+        isinstance(e.args[0], (ast.GeneratorExp, ast.ListComp)):
+      kind = {"set": "set", "frozenset": "set", "list": "list", "tuple": "list"}.get(
+        dotted(e.func), "dict")
+      g = e.args[0]
+      if kind == "dict":
+        if not (isinstance(g.elt, ast.Tuple) and len(g.elt.elts) == 2):
+          return None
+        return self._comp_coll("dict", g.elt.elts[0], g.elt.elts[1], g.generators, e, at)
+      return self._comp_coll(kind, None, g.elt, g.generators, e, at)
+    if isinstance(e, ast.DictComp):
+      return self._comp_coll("dict", e.key, e.value, e.generators, e, at)
+    if isinstance(e, (ast.ListComp, ast.SetComp, ast.GeneratorExp)):
+      kind = "set" if isinstance(e, ast.SetComp) else "list"
+      return self._comp_coll(kind, None, e.elt, e.generators, e, at)
+    return None
+
+  def _comp_coll(self, kind, key, value, gens, node, at):
+    if len(gens) != 1 or gens[0].is_async:
+      raise AnalysisError("%s: comprehension with nested generators: %s"
+                          % (self.fn.qualname, short(node)))
+    g = gens[0]
+    tm = target_map(g.target)
+    own = set(tm)
+    conds = set()
+    for c in g.ifs:
+      conds |= self.test_facts(c, True, tm, at=at, bound=own)
+    return Coll(kind, self._ct(key, tm, at, own) if key is not None else None,
+                self._ct(value, tm, at, own), g.iter, self._ct(g.iter, None, at, ()), conds, tm,
+                node, None)
+
+  def _ct(self, e, tm, at, own):
+    """text of a comprehension part: the comprehension's own variables shadow locals"""
+    ex = self.x(e, at=at, bound=own)
+    if tm:
+      ex = _Renamer(_versioned(tm)).visit(ex)
+    return text(ex)
+
+  def _loop_coll(self, name, kind, init):
+    muts = sorted(self.du.muts.get(name, set()))
+    fills = []
+    for nid in muts:
+      n = self.cfg.nodes[nid]
+      s = n.stmt
+      if isinstance(s, ast.Assign) and len(s.targets) == 1 and \
+          isinstance(s.targets[0], ast.Subscript) and isinstance(s.targets[0].value, ast.Name) and \
+          s.targets[0].value.id == name and kind == "dict":
+        fills.append((n, s.targets[0].slice, s.value))
+        continue
+      c = s.value if isinstance(s, ast.Expr) else None
+      if isinstance(c, ast.Call) and isinstance(c.func, ast.Attribute) and \
+          isinstance(c.func.value, ast.Name) and c.func.value.id == name and len(c.args) == 1 and \
+          not c.keywords and ((kind == "list" and c.func.attr == "append") or
+                              (kind == "set" and c.func.attr == "add")):
+        fills.append((n, None, c.args[0]))
+        continue
+      raise AnalysisError("%s: %s is filled by a statement outside the supported idioms: %s"
+                          % (self.fn.qualname, name, short(s)))
+    if len(fills) != 1:
+      raise AnalysisError("%s: %s is filled incrementally by %d statements; cannot relate it to "
+                          "one iteration" % (self.fn.qualname, name, len(fills)))
+    n, key, value = fills[0]
+    loops = self.enclosing_loops(n.stmt)
+    if len(loops) != 1 or not isinstance(loops[0], ast.For) or loops[0].orelse:
+      raise AnalysisError("%s: %s is filled incrementally (not inside exactly one for loop); "
+                          "cannot relate it to one iteration" % (self.fn.qualname, name))
+    lp = loops[0]
+    for y in lp.body:
+      for z in walk_no_nested(y):
+        if isinstance(z, (ast.Break, ast.Return)):
+          raise AnalysisError("%s: the loop filling %s can stop early" % (self.fn.qualname, name))
+    tm = self.loop_map(lp)
+    conds = self.cfg_facts(n.id, start=tm.head, mapping=tm)
+    return Coll(kind, self.t(key, tm) if key is not None else None, self.t(value, tm),
+                lp.iter, self.t(lp.iter), conds, tm, init, lp)
+
+
+def eq_const(atom_text):
+  """('x', 'years') for the canonical atom text "'years' == x" (either order); None otherwise."""
+  try:
+    e = ast.parse(atom_text, mode="eval").body
+  except SyntaxError:
+    return None
+  if isinstance(e, ast.Compare) and len(e.ops) == 1 and isinstance(e.ops[0], ast.Eq):
+    l, r = e.left, e.comparators[0]
+    if isinstance(l, ast.Constant) and not isinstance(r, ast.Constant):
+      return text(r), l.value
+    if isinstance(r, ast.Constant) and not isinstance(l, ast.Constant):
+      return text(l), r.value
+  return None
+
+
+class _Replace(ast.NodeTransformer):
+  """Replace loads of one name by an expression."""
+  def __init__(self, name, expr):
+    self.name = name
+    self.expr = expr
+
+  def visit_Name(self, n):
+    if n.id == self.name and isinstance(n.ctx, ast.Load):
+      return copy.deepcopy(self.expr)
+    return n
+
+
+class LoopMap(dict):
+  """{loop variable: placeholder} plus the CFG node of the loop head that binds them."""
+  def __init__(self, mapping, head):
+    dict.__init__(self, mapping)
+    self.head = head
+
+
+def _versioned(mapping):
+  """A placeholder mapping also applies to the versioned spelling `name@<head>` of its names."""
+  head = getattr(mapping, "head", None)
+  if head is None:
+    return mapping
+  out = dict(mapping)
+  for k, v in mapping.items():
+    out["%s@%d" % (k, head)] = v
+  return out
+
+
+def _mkey(mapping):
+  if not mapping:
+    return None
+  return (tuple(sorted(mapping.items())), getattr(mapping, "head", None))
+
+
+def stmt_defs_plain(s):
+  """Names bound by a simple statement itself (targets, imports), not by comprehensions in it."""
+  out = set()
+  if isinstance(s, ast.Assign):
+    for t in s.targets:
+      out |= {y.id for y in ast.walk(t) if isinstance(y, ast.Name) and
+              isinstance(y.ctx, ast.Store)}
+  elif isinstance(s, (ast.AugAssign, ast.AnnAssign)):
+    out |= {y.id for y in ast.walk(s.target) if isinstance(y, ast.Name) and
+            isinstance(y.ctx, ast.Store)}
+  elif isinstance(s, (ast.Import, ast.ImportFrom)):
+    for a in s.names:
+      out.add((a.asname or a.name).split(".")[0])
+  return out
+
+
+class Coll(object):
+  """Normal form of a container built from one iteration (see View.collection)."""
+  def __init__(self, kind, key, value, iter_expr, iter_text, conds, mapping, node, loop):
+    self.kind = kind
+    self.key = key
+    self.value = value
+    self.iter = iter_expr
+    self.iter_text = iter_text
+    self.conds = frozenset(conds)
+    self.mapping = mapping
+    self.node = node
+    self.loop = loop
+
+
+_ACCESSORS = ("get", "setdefault", "__getitem__")
+
+
+def _allocates(v):
+  """The expression creates a new object each time it is evaluated (as opposed to reaching an
+  existing one through attributes, subscripts or dict accessors)."""
+  if isinstance(v, (ast.Dict, ast.List, ast.Set, ast.ListComp, ast.SetComp, ast.DictComp,
+                    ast.GeneratorExp, ast.Tuple, ast.BinOp, ast.JoinedStr)):
+    return True
+  if isinstance(v, ast.Call):
+    if isinstance(v.func, ast.Attribute) and v.func.attr in _ACCESSORS:
+      return False
+    return True
+  return False
+
+
+def _empty_container(e):
+  if isinstance(e, ast.Dict) and not e.keys:
+    return "dict"
+  if isinstance(e, ast.List) and not e.elts:
+    return "list"
+  if isinstance(e, ast.Call) and not e.args and not e.keywords:
+    d = dotted(e.func)
+    if d in ("dict", "OrderedDict", "collections.OrderedDict"):
+      return "dict"
+    if d == "list":
+      return "list"
+    if d == "set":
+      return "set"
+  return None
+
+
+def _direct_defs(fnode):
+  out = []
+  def walk(stmts):
+    for s in stmts:
+      if isinstance(s, (ast.FunctionDef, ast.AsyncFunctionDef, ast.ClassDef)):
+        out.append(s)
+        continue
+      for fld in ("body", "orelse", "finalbody"):
+        b = getattr(s, fld, None)
+        if isinstance(b, list) and b and isinstance(b[0], ast.stmt):
+          walk(b)
+      for h in getattr(s, "handlers", []) or []:
+        walk(h.body)
+  walk(fnode.body)
+  return out
+
+
+# ======================================================================== decision arms
+
+class Arm(object):
+  """One path through a loop-free function: the conditions taken and how it ends."""
+  def __init__(self, conds, kind, value, stmt):
+    self.conds = conds        # [(test expr with earlier assignments substituted, polarity)]
+    self.kind = kind          # 'return' | 'raise' | 'fall'
+    self.value = value        # returned / raised expression (substituted), None for bare/fall
+    self.stmt = stmt
+
+  def facts(self, view, mapping=None):
+    out = set()
+    for (t, pol) in self.conds:
+      for (e, p) in _G.facts(t, pol):
+        out.add(view.atom(e, p, mapping))
+    return out
+
+
+def _subst(e, env):
+  if e is None or not env:
+    return e
+
+  class T(ast.NodeTransformer):
+    def __init__(self, bound):
+      self.bound = bound
+
+    def visit_Name(self, n):
+      if isinstance(n.ctx, ast.Load) and n.id in env and n.id not in self.bound:
+        return copy.deepcopy(env[n.id])
+      return n
+
+    def _comp(self, n):
+      b = set(self.bound)
+      for g in n.generators:
+        for y in ast.walk(g.target):
+          if isinstance(y, ast.Name):
+            b.add(y.id)
+      return T(b).generic_visit(n)
+
+    visit_ListComp = visit_SetComp = visit_DictComp = visit_GeneratorExp = _comp
+
+    def visit_Lambda(self, n):
+      return T(set(self.bound) | {a.arg for a in n.args.args}).generic_visit(n)
+
+  return T(set()).visit(copy.deepcopy(e))
+
+
+def decision_arms(fnode, limit=400):
+  """Every path of a function whose body consists of assignments, expression statements,
+  if/elif/else, return and raise (conditional expressions in returned values are split into
+  paths as well), as a list of Arm. Local assignments are substituted into later conditions and
+  results, so `x = f(a); return x` and `return f(a)` give the same arm. AnalysisError for loops,
+  try and with on a path that is still open."""
+  arms = []
+
+  def emit_value(conds, v, stmt, kind):
+    if isinstance(v, ast.IfExp):
+      emit_value(conds + [(v.test, True)], v.body, stmt, kind)
+      emit_value(conds + [(v.test, False)], v.orelse, stmt, kind)
+      return
+    arms.append(Arm(list(conds), kind, v, stmt))
+    if len(arms) > limit:
+      raise AnalysisError("%s: too many paths" % fnode.name)
+
+  def go(stmts, states):
+    """states: [(conds, env)] open at the start of stmts -> open states after them"""
+    for s in stmts:
+      if not states:
+        return []
+      nxt = []
+      for (conds, env) in states:
+        if isinstance(s, ast.Expr):
+          nxt.append((conds, env))
+        elif isinstance(s, (ast.Pass, ast.Import, ast.ImportFrom, ast.Global, ast.Nonlocal,
+                            ast.FunctionDef, ast.ClassDef, ast.Assert, ast.Delete)):
+          nxt.append((conds, env))
+        elif isinstance(s, ast.Assign):
+          env2 = dict(env)
+          val = _subst(s.value, env)
+          for t in s.targets:
+            if isinstance(t, ast.Name):
+              env2[t.id] = val
+            else:
+              for y in ast.walk(t):
+                if isinstance(y, ast.Name) and isinstance(y.ctx, ast.Store):
+                  env2.pop(y.id, None)
+          nxt.append((conds, env2))
+        elif isinstance(s, ast.AnnAssign):
+          env2 = dict(env)
+          if isinstance(s.target, ast.Name) and s.value is not None:
+            env2[s.target.id] = _subst(s.value, env)
+          nxt.append((conds, env2))
+        elif isinstance(s, ast.AugAssign):
+          env2 = dict(env)
+          if isinstance(s.target, ast.Name):
+            cur = env.get(s.target.id, ast.Name(id=s.target.id, ctx=ast.Load()))
+            env2[s.target.id] = ast.BinOp(left=copy.deepcopy(cur), op=s.op,
+                                          right=_subst(s.value, env))
+          nxt.append((conds, env2))
+        elif isinstance(s, ast.If):
+          t = _subst(s.test, env)
+          nxt.extend(go(s.body, [(conds + [(t, True)], dict(env))]))
+          nxt.extend(go(s.orelse, [(conds + [(t, False)], dict(env))]))
+        elif isinstance(s, ast.Return):
+          emit_value(conds, _subst(s.value, env), s, "return")
+        elif isinstance(s, ast.Raise):
+          arms.append(Arm(list(conds), "raise", _subst(s.exc, env), s))
+        else:
+          raise AnalysisError("%s: statement outside the decision subset: %s"
+                              % (fnode.name, short(s)))
+      states = nxt
+      if len(states) > limit:
+        raise AnalysisError("%s: too many paths" % fnode.name)
+    return states
+
+  for (conds, env) in go(fnode.body, [([], {})]):
+    arms.append(Arm(list(conds), "fall", None, None))
+  return arms
+
+
+# ======================================================================== helper inlining
+
+def _always_exits(stmts):
+  """The block cannot fall through (ends in return/raise on every path)."""
+  if not stmts:
+    return False
+  last = stmts[-1]
+  if isinstance(last, (ast.Return, ast.Raise)):
+    return True
+  if isinstance(last, ast.If) and last.orelse:
+    return _always_exits(last.body) and _always_exits(last.orelse)
+  return False
+
+
+def _structure_returns(stmts):
+  """Rewrite `if c: ...; return A` followed by more statements into if/else so that every return
+  is in tail position. Returns new list (copies only where it restructures) or None when a return
+  sits somewhere this cannot reach (inside a loop, try, with)."""
+  out = []
+  for i, s in enumerate(stmts):
+    rest = stmts[i + 1:]
+    if isinstance(s, ast.If):
+      body = _structure_returns(s.body)
+      orelse = _structure_returns(s.orelse) if s.orelse else []
+      if body is None or orelse is None:
+        return None
+      if rest and _has_return(s):
+        if _always_exits(body) and not _always_exits(orelse):
+          tail = _structure_returns(orelse + rest)
+          if tail is None:
+            return None
+          out.append(ast.copy_location(ast.If(test=s.test, body=body, orelse=tail), s))
+          return out
+        if _always_exits(orelse) and not _always_exits(body):
+          tail = _structure_returns(body + rest)
+          if tail is None:
+            return None
+          out.append(ast.copy_location(ast.If(test=s.test, body=tail, orelse=orelse), s))
+          return out
+        if _always_exits(body) and _always_exits(orelse):
+          out.append(ast.copy_location(ast.If(test=s.test, body=body, orelse=orelse), s))
+          return out
+        return None
+      out.append(ast.copy_location(ast.If(test=s.test, body=body, orelse=orelse), s))
+    elif isinstance(s, ast.Return):
+      out.append(s)
+      return out
+    elif isinstance(s, (ast.For, ast.While, ast.Try, ast.With, ast.AsyncFor, ast.AsyncWith)):
+      if _has_return(s):
+        return None
+      out.append(s)
+    else:
+      out.append(s)
+  return out
+
+
+def _has_return(s):
+  return any(isinstance(x, ast.Return) for x in walk_no_nested(s))
+
+
+def _inlinable(fi):
+  n = fi.node
+  if n.decorator_list and not all(dotted(d) in ("staticmethod", "classmethod")
+                                  for d in n.decorator_list):
+    return None
+  a = n.args
+  if a.vararg or a.kwarg or a.kwonlyargs or a.posonlyargs:
+    return None
+  for x in walk_no_nested(n):
+    if isinstance(x, (ast.Yield, ast.YieldFrom, ast.Global, ast.Nonlocal, ast.Await)):
+      return None
+    if x is not n and isinstance(x, (ast.FunctionDef, ast.AsyncFunctionDef, ast.ClassDef)):
+      return None
+  if _direct_defs(n):
+    return None
+  body = [s for s in n.body if not (isinstance(s, ast.Expr) and isinstance(s.value, ast.Constant))]
+  body = _structure_returns(body)
+  return body
+
+
+class _Inliner(object):
+  def __init__(self, world, fi, keep, depth):
+    self.world = world
+    self.fi = fi
+    self.keep = set(keep)
+    self.depth = depth
+    self.counter = [0]
+    self.changed = False
+
+  def callee(self, call, stack):
+    f = call.func
+    fi = None
+    is_method = False
+    if isinstance(f, ast.Attribute) and isinstance(f.value, ast.Name) and \
+        f.value.id in ("self", "cls") and self.fi.cls is not None:
+      fi = self.fi.cls.methods.get(f.attr)
+      is_method = True
+    elif isinstance(f, ast.Name):
+      fi = self.fi.module.functions.get(f.id)
+      top = self.fi
+      while top.parent is not None:
+        top = top.parent
+      # a local of the same name shadows the module function
+      if fi is not None and any(isinstance(y, ast.Name) and y.id == f.id and
+                                isinstance(y.ctx, ast.Store) for y in ast.walk(top.node)):
+        fi = None
+    if fi is None or not fi.name.startswith("_") or fi.name.startswith("__"):
+      return None
+    if fi.name in self.keep or fi.qualname in stack or fi is self.fi:
+      return None
+    return fi, is_method
+
+  def instantiate(self, fi, is_method, call, body, how, targets):
+    """Statements replacing the call: parameters bound to fresh locals, helper locals renamed,
+    returns turned into `how` ('assign' to targets / 'return' / 'expr')."""
+    self.counter[0] += 1
+    suffix = "__h%d" % self.counter[0]
+    params = fi.params()
+    decs = {dotted(d) for d in fi.node.decorator_list}
+    recv = None
+    if is_method and "staticmethod" not in decs:
+      recv, params = params[0], params[1:]
+    a = fi.node.args
+    names = [x.arg for x in a.args]
+    defaults = dict(zip(names[len(names) - len(a.defaults):], a.defaults))
+    bound = bind_args(call, params)
+    if bound is None:
+      return None
+    for p in params:
+      if p not in bound:
+        if p not in defaults:
+          return None
+        bound[p] = defaults[p]
+    locals_ = set(params)
+    for s in body:
+      for y in walk_no_nested(s):
+        if isinstance(y, ast.Name) and isinstance(y.ctx, (ast.Store, ast.Del)):
+          locals_.add(y.id)
+    ren = {n: n + suffix for n in locals_}
+    if recv is not None:
+      ren[recv] = call.func.value.id
+
+    class R(ast.NodeTransformer):
+      def visit_Name(self, n):
+        if n.id in ren:
+          return ast.copy_location(ast.Name(id=ren[n.id], ctx=n.ctx), n)
+        return n
+
+    out = []
+    for p in params:
+      st = ast.Assign(targets=[ast.Name(id=ren[p], ctx=ast.Store())],
+                      value=copy.deepcopy(bound[p]), lineno=call.lineno, col_offset=0)
+      out.append(ast.fix_missing_locations(ast.copy_location(st, call)))
+
+    def conv(stmts):
+      res = []
+      for s in stmts:
+        if isinstance(s, ast.Return):
+          v = R().visit(copy.deepcopy(s.value)) if s.value is not None else None
+          if how == "return":
+            res.append(ast.copy_location(ast.Return(value=v), call))
+          elif how == "assign":
+            vv = v if v is not None else ast.Constant(value=None)
+            res.append(ast.copy_location(
+              ast.Assign(targets=[copy.deepcopy(t) for t in targets], value=vv,
+                         lineno=call.lineno), call))
+          else:
+            if v is not None and not isinstance(v, (ast.Constant, ast.Name)):
+              res.append(ast.copy_location(ast.Expr(value=v), call))
+            else:
+              res.append(ast.copy_location(ast.Pass(), call))
+        elif isinstance(s, ast.If):
+          s2 = ast.If(test=R().visit(copy.deepcopy(s.test)), body=conv(s.body) or
+                      [ast.copy_location(ast.Pass(), s)], orelse=conv(s.orelse))
+          res.append(ast.copy_location(s2, s))
+        else:
+          res.append(R().visit(copy.deepcopy(s)))
+      return res
+
+    if how == "assign" and not _always_exits(body):
+      # a path that falls off the end of the helper yields None
+      out.append(ast.copy_location(
+        ast.Assign(targets=[copy.deepcopy(t) for t in targets], value=ast.Constant(value=None),
+                   lineno=call.lineno), call))
+    out.extend(conv(body))
+    for s in out:
+      ast.fix_missing_locations(s)
+    return out
+
+  def block(self, stmts, stack, depth):
+    out = []
+    for s in stmts:
+      rep = self.stmt(s, stack, depth)
+      out.extend(rep)
+    return out
+
+  def stmt(self, s, stack, depth):
+    call, how, targets = None, None, None
+    if isinstance(s, ast.Expr) and isinstance(s.value, ast.Call):
+      call, how = s.value, "expr"
+    elif isinstance(s, ast.Assign) and isinstance(s.value, ast.Call):
+      call, how, targets = s.value, "assign", s.targets
+    elif isinstance(s, ast.Return) and isinstance(s.value, ast.Call):
+      call, how = s.value, "return"
+    if call is not None and depth > 0:
+      r = self.callee(call, stack)
+      if r is not None:
+        fi, is_method = r
+        body = _inlinable(fi)
+        if body is not None:
+          rep = self.instantiate(fi, is_method, call, body, how, targets)
+          if rep is not None:
+            self.changed = True
+            sub = _Inliner(self.world, fi, self.keep, depth - 1)
+            sub.counter = self.counter
+            # helpers called by the helper (one more level)
+            return sub.block(rep, stack | {fi.qualname}, depth - 1)
+    # recurse into compound statements, sharing untouched sub-statements
+    if isinstance(s, (ast.FunctionDef, ast.AsyncFunctionDef, ast.ClassDef)):
+      return [s]
+    new_fields = {}
+    for fld in ("body", "orelse", "finalbody"):
+      b = getattr(s, fld, None)
+      if isinstance(b, list) and b and isinstance(b[0], ast.stmt):
+        nb = self.block(b, stack, depth)
+        if len(nb) != len(b) or any(x is not y for x, y in zip(nb, b)):
+          new_fields[fld] = nb
+    handlers = getattr(s, "handlers", None)
+    if handlers:
+      nh = []
+      ch = False
+      for h in handlers:
+        nb = self.block(h.body, stack, depth)
+        if len(nb) != len(h.body) or any(x is not y for x, y in zip(nb, h.body)):
+          h2 = copy.copy(h)
+          h2.body = nb
+          nh.append(h2)
+          ch = True
+        else:
+          nh.append(h)
+      if ch:
+        new_fields["handlers"] = nh
+    if new_fields:
+      s2 = copy.copy(s)
+      for k, v in new_fields.items():
+        setattr(s2, k, v)
+      return [s2]
+    return [s]
+
+
+def expand_helpers(world, fi, keep=(), depth=2):
+  """FuncInfo whose body has the private helpers of the same class / module inlined at their
+  statement-level call sites (`self._h(..)`, `x = self._h(..)`, `return _h(..)`), parameters
+  bound to fresh `<param>__hN` locals. Statements that are not touched are shared with the
+  original tree (node identity is kept). Helpers that cannot be inlined faithfully (generators,
+  returns inside loops, nested defs, * / ** parameters) are left as calls. The original fi is
+  returned when nothing was inlined."""
+  from ..index import FuncInfo
+  inl = _Inliner(world, fi, keep, depth)
+  body = inl.block(fi.node.body, {fi.qualname}, depth)
+  if not inl.changed:
+    return fi
+  node = copy.copy(fi.node)
+  node.body = body
+  out = FuncInfo(fi.module, fi.cls, node, fi.qualname, fi.parent)
+  out.expanded_from = fi
+  return out
+
+
+_XFN_CACHE = {}
+
+
+def xfn(world, qualname, keep=(), depth=2):
+  """Fn of `qualname` with helpers inlined (see expand_helpers); cached per World."""
+  from ..fn import Fn
+  key = (id(world), qualname, tuple(sorted(keep)), depth)
+  if key not in _XFN_CACHE:
+    fi = world.repo.func(qualname)
+    try:
+      fi2 = expand_helpers(world, fi, keep, depth)
+    except RecursionError:
+      fi2 = fi
+    _XFN_CACHE[key] = world.fn_of(fi) if fi2 is fi else Fn(world, fi2)
+    _XFN_CACHE[(key, "w")] = world      # keep the world alive so that id() stays unique
+  return _XFN_CACHE[key]
